@@ -134,6 +134,7 @@ class EngineC14(HistEngine):
                 out.count("fault_fired_" + fault["exc"])
                 out.count("fault_fired_" + fault["when"])
                 out.count("fault_fired_in_" + kind)
+                out.count("fault_fired_site_" + fault.get("site", "callback"))
                 failure_seen = True
                 log.add("faulted", kind, fault["at"], fault["when"], fault["exc"], o["status"])
                 nontrivial_marks.add("fault")
